@@ -88,7 +88,7 @@ Lemma api_render_unfold n src o s :
    | Fuel => Fuel
    end).
 Proof.
-  unfold api_render, bind, get. destruct (s_mode s =? -1)%Z; reflexivity.
+  unfold api_render, bind, gets. destruct (s_mode s =? -1)%Z; reflexivity.
 Qed.
 
 Theorem api_render_range n src o s html s' :
